@@ -67,7 +67,27 @@ func (pConn *PFCPConn) RemoveSession(session PFCPSession) {
 	session.metrics.Delete()
 	pConn.SaveSessions(session.metrics)
 
+	// Give back what the UPF allocated for this session, however it ends
+	// (deletion, association release, timeouts, rejected establishment).
+	pConn.releaseSessionResources(session)
+
 	if err := pConn.store.DeleteSession(session.localSEID); err != nil {
 		logger.PfcpLog.Errorf("failed to delete PFCP session from store: %v", err)
+	}
+}
+
+// releaseSessionResources returns the UPF-chosen F-TEIDs and the UPF-allocated
+// UE IP address of a session.
+func (pConn *PFCPConn) releaseSessionResources(session PFCPSession) {
+	for _, p := range session.pdrs {
+		if p.UPAllocateFteid {
+			pConn.upf.fteidGenerator.FreeID(p.tunnelTEID)
+		}
+	}
+
+	if pConn.upf.ippool != nil {
+		// the address is registered under the local SEID; there is none if the UPF
+		// did not allocate the UE IP address of this session
+		pConn.upf.ippool.releaseIfAllocated(session.localSEID)
 	}
 }
